@@ -353,56 +353,72 @@ def run_variant(pid: str, prog2: Program):
     return rep2, err
 
 
+_G = {}
+
+
+def _job(i):
+    """worker: evaluate variant i (fork start method: _G is inherited)"""
+    pid, prog, jobs, base_keys = _G["pid"], _G["prog"], _G["jobs"], _G["base_keys"]
+    name, suffix, edit, expect, rule = jobs[i]
+    p2 = variant(prog, suffix, edit)
+    if p2 is None:
+        return (i, "skipped", None, None)
+    rep2, err = run_variant(pid, p2)
+    new = [(v.rule, v.where, v.key) for v in rep2.violations if v.key not in base_keys]
+    return (i, "done", new, err)
+
+
 def run(pid: str, prog: Program, rep, seed: int = 0) -> None:
+    import multiprocessing as mp
+    import os
     mod = importlib.import_module(f"va.rules.{pid}")
     mutants: List[Mutant] = list(getattr(mod, "MUTANTS", []))
-    files = getattr(mod, "FILES", None)
+    files = getattr(mod, "FILES", None) or []
     base_keys = {v.key for v in rep.violations}
+    jobs = [(m.name, m.file, m.edit, m.expect, m.rule) for m in mutants]
+    for name, t in SILENT_GLOBAL:
+        for suffix in files:
+            jobs.append((f"{name} on {suffix}", suffix, t, "silent", None))
+    _G.update(pid=pid, prog=prog, jobs=jobs, base_keys=base_keys)
+    nproc = min(int(os.environ.get("VERIF_JOBS", "16")), max(1, len(jobs)))
+    results = []
+    if nproc > 1 and len(jobs) > 2:
+        try:
+            ctx = mp.get_context("fork")
+            with ctx.Pool(nproc) as pool:
+                results = pool.map(_job, range(len(jobs)), chunksize=1)
+        except Exception:
+            results = [_job(i) for i in range(len(jobs))]
+    else:
+        results = [_job(i) for i in range(len(jobs))]
     tally = {"must_fire": 0, "fired": 0, "must_silent": 0, "silent": 0, "skipped": 0, "mismatches": []}
     details = []
-    for m in mutants:
-        p2 = variant(prog, m.file, m.edit)
-        if p2 is None:
+    for (i, state, new, err) in results:
+        name, suffix, edit, expect, rule = jobs[i]
+        if state == "skipped":
             tally["skipped"] += 1
-            details.append({"variant": m.name, "result": "skipped (construct not present on this tree)"})
+            details.append({"variant": name, "result": "skipped (construct not present on this tree)"})
             continue
-        rep2, err = run_variant(pid, p2)
-        new = [v for v in rep2.violations if v.key not in base_keys]
-        if m.expect == "fire":
+        if expect == "fire":
             tally["must_fire"] += 1
-            hit = [v for v in new if m.rule is None or v.rule.startswith(m.rule)]
+            hit = [v for v in new if rule is None or v[0].startswith(rule)]
             if hit:
                 tally["fired"] += 1
-                details.append({"variant": m.name, "result": "reported", "by": hit[0].rule, "at": hit[0].where})
+                details.append({"variant": name, "result": "reported", "by": hit[0][0], "at": hit[0][1]})
             else:
-                res = "undecided: " + err[:160] if err else ("reported by another rule: " + new[0].rule if new else "NOT reported")
-                tally["mismatches"].append(f"must-fire '{m.name}': {res}")
-                details.append({"variant": m.name, "result": res})
+                res = "undecided: " + err[:160] if err else ("reported by another rule: " + new[0][0] if new else "NOT reported")
+                tally["mismatches"].append(f"must-fire '{name}': {res}")
+                details.append({"variant": name, "result": res})
         else:
             tally["must_silent"] += 1
             if not new and not err:
                 tally["silent"] += 1
-                details.append({"variant": m.name, "result": "silent"})
+                if i < len(mutants):
+                    details.append({"variant": name, "result": "silent"})
             else:
-                res = ("undecided: " + err[:160]) if err else f"false alarm {new[0].key}"
-                tally["mismatches"].append(f"must-stay-silent '{m.name}': {res}")
-                details.append({"variant": m.name, "result": res})
-    # global behaviour-preserving transforms on the property's files
-    for name, t in SILENT_GLOBAL:
-        for suffix in (files or []):
-            p2 = variant(prog, suffix, t)
-            if p2 is None:
-                tally["skipped"] += 1
-                continue
-            rep2, err = run_variant(pid, p2)
-            new = [v for v in rep2.violations if v.key not in base_keys]
-            tally["must_silent"] += 1
-            if not new and not err:
-                tally["silent"] += 1
-            else:
-                res = ("undecided: " + err[:200]) if err else f"false alarm {new[0].key}"
-                tally["mismatches"].append(f"must-stay-silent '{name}' on {suffix}: {res}")
-                details.append({"variant": f"{name} on {suffix}", "result": res})
+                res = ("undecided: " + err[:200]) if err else f"false alarm {new[0][2]}"
+                tally["mismatches"].append(f"must-stay-silent '{name}': {res}")
+                details.append({"variant": name, "result": res})
     rep.extra["selftest"] = {k: v for k, v in tally.items()}
     rep.extra["selftest_details"] = details[:80]
     for mm in tally["mismatches"]:
